@@ -199,6 +199,10 @@ V("c09g-traced-kernel-wrong-diagonal", "C09", {"rule": "C09g", "contains": "get_
   (GSTATE, "            B = np.diag(one_plus_z / 2)\n", "            B = np.diag(one_minus_z / 2)\n"))
 V("c09g-eager-kernel-sign", "C09", {"rule": "C09g", "contains": "get_phaseshifter_expectation_value"},
   (GSTATE, "        cov_D_phi = (cov + 1j * D_phi) / 2\n", "        cov_D_phi = (cov - 1j * D_phi) / 2\n"))
+HOMO = "piquasso/_simulators/fock/pure/simulation_steps/homodyne.py"
+V("c02g-hermite-weights-normalised", "C02", "silent",
+  (HOMO, "    starting_index = 0\n    for idx in range(cutoff):\n        size = idx + 1\n        hermite_polynomial_coeffs = hermites[starting_index : starting_index + size]\n        starting_index += size\n        for jdx in range(current_d - 1):\n            hermite_vals[idx, jdx] = polyeval(hermite_polynomial_coeffs, positions[jdx])",
+   "    normalizer = 1.0\n    starting_index = 0\n    for idx in range(cutoff):\n        if idx > 0:\n            normalizer *= np.sqrt(2.0 * idx)\n        size = idx + 1\n        hermite_polynomial_coeffs = hermites[starting_index : starting_index + size]\n        starting_index += size\n        for jdx in range(current_d - 1):\n            hermite_vals[idx, jdx] = polyeval(hermite_polynomial_coeffs, positions[jdx]) / normalizer"))
 # ------------------------------------------------------------------------------------------- C20
 V("c20-sub-add", "C20", {"rule": "C20c", "contains": "Sub"}, (EXPR, "ast.Sub: op.sub", "ast.Sub: op.add"))
 V("c20-lt-le", "C20", {"rule": "C20c", "contains": "Lt"}, (EXPR, "ast.Lt: op.lt", "ast.Lt: op.le"))
